@@ -81,9 +81,9 @@ fn c04_call_write_step() {
         Err(e) => {
             assert!(refuse, "C04/accepts-every-write-within-length");
             if il > 0 && ended {
-                assert!(e == Error::BodyContentAfterFinish, "C04/after-end-error-kind");
+                assert!(matches!(e, Error::BodyContentAfterFinish), "C04/after-end-error-kind");
             } else {
-                assert!(e == Error::BodyLargerThanContentLength, "C04/overshoot-error-kind");
+                assert!(matches!(e, Error::BodyLargerThanContentLength), "C04/overshoot-error-kind");
             }
             let mut j = 0;
             while j < W04 {
@@ -118,12 +118,12 @@ fn c04_call_direct_step() {
     let r = call.consume_direct_write(amount);
     match bh::writer_left(&bw0) {
         None => {
-            assert!(r == Err(Error::BodyIsChunked), "C04/direct-on-chunked-refused");
+            assert!(matches!(r, Err(Error::BodyIsChunked)), "C04/direct-on-chunked-refused");
             assert!(bh::writer_same(&call.state.writer, &bw0), "C04/refusal-changes-nothing");
         }
         Some(left) => {
             if amount as u64 > left {
-                assert!(r == Err(Error::BodyLargerThanContentLength), "C04/direct-overshoot-refused");
+                assert!(matches!(r, Err(Error::BodyLargerThanContentLength)), "C04/direct-overshoot-refused");
                 assert!(bh::writer_same(&call.state.writer, &bw0), "C04/refusal-changes-nothing");
                 kani::cover!(amount as u64 == left + 1, "direct-overshoot-by-one");
             } else {
@@ -227,7 +227,7 @@ fn c08_call_read_close_step() {
     let mut out = out0;
     let r = call.read(&inp[..il], &mut out[..ol]);
     let k = il.min(ol);
-    assert!(r == Ok((k, k)), "C08/close-delimited-passes-min-of-two");
+    assert!(matches!(r, Ok((i, o)) if i == k && o == k), "C08/close-delimited-passes-min-of-two");
     let mut j = 0;
     while j < W08 {
         if j < k {
@@ -264,7 +264,7 @@ fn c08_call_read_nobody_step() {
         mk_call(mk_state(Phase::RecvBody, bh::mk_writer_none(), Some(BodyReader::NoBody)), true);
     let mut out = out0;
     let r = call.read(&inp[..il], &mut out[..ol]);
-    assert!(r == Ok((0, 0)), "C08/no-body-reads-nothing");
+    assert!(matches!(r, Ok((0, 0))), "C08/no-body-reads-nothing");
     assert!(out == out0, "C08/beyond-k-untouched");
     assert!(call.is_ended(), "C08/no-body-is-ended");
     kani::cover!(il > 0 && ol > 0, "bytes-offered");
@@ -302,7 +302,7 @@ fn c03_call_chunked_step() {
     let r = call.write(&input[..il], &mut out[..ol]);
     let (_chunks, data, wire) = bh::ghost();
     if ended && il > 0 {
-        assert!(r == Err(Error::BodyContentAfterFinish), "C03/non-empty-write-after-finish-refused");
+        assert!(matches!(r, Err(Error::BodyContentAfterFinish)), "C03/non-empty-write-after-finish-refused");
         assert!(call.is_finished(), "C03/finished-is-stable");
         assert!(wire == 0, "C03/refusal-emits-nothing");
     } else {
@@ -330,4 +330,87 @@ fn c03_call_chunked_step() {
     kani::cover!(!ended && il == 0 && ol == 4, "terminator-does-not-fit");
     kani::cover!(!ended && il > 0 && ol == 5, "five-spare-bytes-with-input");
     core::mem::forget(call);
+}
+
+// =====================================================================================
+// C17 — a rejected request leaves no trace
+// =====================================================================================
+use crate::client::amended::verif_h as ah;
+
+fn c17_reject_case(mi: usize, vi: usize, with_body: bool, skip: bool) {
+    let out0: [u8; 8] = kani::any();
+    let ol = any_le(8);
+    let mut out = out0;
+    let writer = if with_body { BodyWriter::new_chunked() } else { BodyWriter::new_none() };
+    let mut st = mk_state(Phase::SendLine, writer, None);
+    st.skip_method_body_check = skip;
+    let req = ah::mk_request(mi, vi);
+    if with_body {
+        let mut call: Call<WithBody, ()> = Call {
+            request: ah::mk_amended(req), analyzed: false, state: st, _ph: PhantomData,
+        };
+        let r1 = call.write(&[], &mut out[..ol]);
+        assert!(r1.is_err(), "C17/invalid-request-rejected-on-first-write");
+        assert!(!call.analyzed && call.is_prelude() && !call.is_body(), "C17/rejected-call-never-ready");
+        let r2 = call.write(&[], &mut out[..ol]);
+        assert!(r2.is_err(), "C17/rejection-is-repeatable");
+        core::mem::forget((r1, r2));
+        core::mem::forget(call);
+    } else {
+        let mut call: Call<WithoutBody, ()> = Call {
+            request: ah::mk_amended(req), analyzed: false, state: st, _ph: PhantomData,
+        };
+        let r1 = call.write(&mut out[..ol]);
+        assert!(r1.is_err(), "C17/invalid-request-rejected-on-first-write");
+        assert!(!call.analyzed && !call.is_finished(), "C17/rejected-call-never-ready");
+        let r2 = call.write(&mut out[..ol]);
+        assert!(r2.is_err(), "C17/rejection-is-repeatable");
+        core::mem::forget((r1, r2));
+        core::mem::forget(call);
+    }
+    let mut i = 0;
+    while i < 8 {
+        assert!(out[i] == out0[i], "C17/rejection-emits-nothing");
+        i += 1;
+    }
+    kani::cover!(ol == 8, "rejected-with-room-to-write");
+}
+
+//@ props: C17
+//@ tier: quick
+//@ unwind: 4
+//@ unwindset: c17_reject_case=12 memcmp=12
+//@ timeout: 900
+//@ encodes: Call::<WithBody>::write / Call::<WithoutBody>::write on a not-yet-analysed call, Call::analyze_request, AmendedRequest::analyze, readiness predicates is_prelude/is_body/is_finished
+//@ vars: output buffer 8 symbolic bytes, out<=8; request concrete per harness: (GET, HTTP/2), (HEAD, HTTP/0.9), (PUT, HTTP/1.0), (GET 1.1 via the with-body constructor), (POST 1.1 via the without-body constructor)
+//@ bounds: header-less requests, one representative per rejection class (the classes themselves are decided exhaustively by c17_analyze_version_method_table)
+//@ outside: rejections caused by header values (c17_cell_* family, thorough tier)
+//@ clause: a rejected request yields Err on the first write, no output byte is touched, the call stays un-analysed in its initial phase (not ready to advance), and a second attempt yields an error again
+#[kani::proof]
+fn c17_reject_http2_get() {
+    c17_reject_case(0, 3, false, false);
+}
+
+//@ like: c17_reject_http2_get
+#[kani::proof]
+fn c17_reject_http09_head() {
+    c17_reject_case(1, 0, false, false);
+}
+
+//@ like: c17_reject_http2_get
+#[kani::proof]
+fn c17_reject_http10_put() {
+    c17_reject_case(3, 1, true, false);
+}
+
+//@ like: c17_reject_http2_get
+#[kani::proof]
+fn c17_reject_get_with_body() {
+    c17_reject_case(0, 2, true, false);
+}
+
+//@ like: c17_reject_http2_get
+#[kani::proof]
+fn c17_reject_post_without_body() {
+    c17_reject_case(2, 2, false, false);
 }
